@@ -302,9 +302,13 @@ func BigToCompact(v *big.Int) uint32 {
 	return c | size<<24
 }
 
-var two256 = new(big.Int).Lsh(big.NewInt(1), 256)
+// 2^256 with 40 fractional bits: the work of a block is the expected number of hashes 2^256/(target+1) as a
+// (practically) real number.  Bitcoin Core floors this quotient per block; with the tiny toy targets used here
+// the dropped fractions (2.0000002 -> 2) would turn "slightly more work" into a tie, which no node that sums
+// difficulties - as gocoin does, in float64 - can or needs to reproduce.  Units: 2^-40 hashes.
+var two256 = new(big.Int).Lsh(big.NewInt(1), 256+40)
 
-// Work of one block with the given bits: 2^256 / (target+1).
+// Work of one block with the given bits: 2^256 / (target+1), in units of 2^-40.
 func Work(bits uint32) *big.Int {
 	t, neg, ovf := CompactToBig(bits)
 	if neg || ovf || t.Sign() == 0 {
